@@ -231,17 +231,30 @@ func (m *recMeter) Float64ObservableGauge(n string, _ ...metric.Float64Observabl
 }
 
 func (m *recMeter) RegisterCallback(f metric.Callback, insts ...metric.Observable) (metric.Registration, error) {
+	// like sdk/metric: an observable of another implementation (or nil) rejects the registration as a whole; an
+	// observable of another meter is skipped with an error — the callback is still registered for the valid ones and
+	// a live Registration is returned TOGETHER with the error; nothing valid: nothing registered
+	var err error
+	valid := 0
 	for _, in := range insts {
 		o, ok := in.(recObs)
-		if !ok || o.obsCell().owner != m {
+		if !ok {
 			return nil, errors.New("invalid observable: from different implementation")
 		}
+		if o.obsCell().owner != m {
+			err = errors.Join(err, errors.New("invalid registration: observable from another meter"))
+			continue
+		}
+		valid++
+	}
+	if valid == 0 && err != nil {
+		return nil, err
 	}
 	r := &recReg{m: m, f: f}
 	m.mu.Lock()
 	m.regs = append(m.regs, r)
 	m.mu.Unlock()
-	return r, nil
+	return r, err
 }
 
 // recPoint is one observation an Observer received.
